@@ -331,3 +331,51 @@ pub fn run_timed(body: &[Sexp]) -> String {
     f => panic!("bad timed form {f}"),
   }
 }
+
+/// (atform OP OFFSET_SECONDS): the `_at` constructors turn an Instant into a Duration with the real
+/// Instant::now(); the observation is the first duration requested from new_timer, in whole seconds.
+pub fn run_atform(body: &[Sexp]) -> String {
+  install_timer();
+  NOW.with(|n| n.set(0));
+  TIMER_REQS.with(|r| r.borrow_mut().clear());
+  SPAWNED.with(|q| q.borrow_mut().clear());
+  let off = body[1].int();
+  let at = if off >= 0 {
+    Instant::now() + Duration::from_secs(off as u64)
+  } else {
+    Instant::now() - Duration::from_secs((-off) as u64)
+  };
+  let log: TLog = TLog::default();
+  let fin = Arc::new(AtomicBool::new(false));
+  let probe = TProbe { log: log.clone(), fin };
+  let sch = VerifScheduler;
+  let src: Subject<'static, Val, i64> = Subject::default();
+  let srct: SubjectThreads<Val, i64> = SubjectThreads::default();
+  let infallible = |e: std::convert::Infallible| -> i64 { match e {} };
+  let _sub: Box<dyn std::any::Any> = match body[0].atom() {
+    "delay_at" => Box::new(src.clone().delay_at(at, sch).actual_subscribe(probe)),
+    "delay_at_threads" => Box::new(srct.clone().delay_at_threads(at, sch).actual_subscribe(probe)),
+    "delay_subscription_at" => Box::new(src.clone().delay_subscription_at(at, sch).actual_subscribe(probe)),
+    "timer_at" => Box::new(observable::timer_at(Val::Z(1), at, sch).on_error_map(infallible).actual_subscribe(probe)),
+    "interval_at" => Box::new(
+      observable::interval_at(at, Duration::from_secs(7), sch)
+        .map(|n: usize| Val::Z(n as i64))
+        .on_error_map(infallible)
+        .actual_subscribe(probe),
+    ),
+    h => panic!("bad at-form {h}"),
+  };
+  src.clone().next(Val::Z(1));
+  srct.clone().next(Val::Z(1));
+  let mut tasks: Vec<SpawnedTask> = SPAWNED.with(|q| q.borrow_mut().drain(..).collect());
+  let waker = noop_waker();
+  if let Some(f) = tasks.get_mut(0) {
+    let mut cx = Context::from_waker(&waker);
+    let _ = f.as_mut().poll(&mut cx);
+  }
+  let req = TIMER_REQS.with(|r| r.borrow().first().cloned());
+  match req {
+    Some(ms) => format!("(req {})", (ms + 500) / 1000),
+    None => "(req none)".to_string(),
+  }
+}
